@@ -492,6 +492,14 @@ if __name__ == "__main__":
     if cmd == "rejudge":
         cmd_rejudge(jobs=int(os.environ.get("JOBS", "8")))
         sys.exit(0)
+    if cmd == "one":
+        muts = {m["id"]: m for m in load_mutants()}
+        cov = coverage_map()
+        for mid in sys.argv[2:]:
+            r = judge(muts[mid], cov, [f"C{i:02d}" for i in range(1, 21)])
+            m = muts[mid]
+            print(mid, m["file"], m["function"], repr(m["old"][:40]), "->", repr(m["new"][:40]), "|", r["status"], r.get("detected"), {k: v[:160] for k, v in r.get("first", {}).items()})
+        sys.exit(0)
     if cmd == "report2":
         cmd_report2()
         sys.exit(0)
